@@ -211,8 +211,9 @@ theorem resolve_missing_good (fs : Fs) (p : RPath) (fl : Bool) (par : List Name)
       · split at h <;> cases h
       · cases h
     · refine walkPath_missing_good _ _ _ _ _ _ _ ?_ h
-      rw [if_pos hp]
-      exact .inl rfl
+      first
+        | exact .inl rfl
+        | (rw [if_pos hp]; exact .inl rfl)
 
 theorem GoodCur.dir {root : Node} {cur : List Name} (h : GoodCur root cur) (hroot : root.isDir = true) :
     ∃ es, root.getAt cur = some (.dir es) := by
@@ -397,17 +398,18 @@ theorem execOp_special_plain (fs fs' : Fs) (c : Cfg) (s t : RPath) (ns cs : List
     (h : execOp fs c (.special s t) = some fs') : fs'.lstat t = some (ns, .special k rdev) := by
   subst ht
   simp only [execOp, hs] at h
-  trace_state
   split at h
   · split at h
     · cases h
     · split at h
-      · rename_i fs1 hu
-        have h1 := unlink_plain _ _ _ hl hu
-        subst h1
-        exact mknod_plain_lstat _ fs' ns k rdev (delAt_isDir _ _ hroot) hlen
-          ((delAt_ancKept _ _).noLinkAbove hl) (toOption_eq_some h)
       · cases h
+      · split at h
+        · rename_i fs1 hu
+          have h1 := unlink_plain _ _ _ hl hu
+          subst h1
+          exact mknod_plain_lstat _ fs' ns k rdev (delAt_isDir _ _ hroot) hlen
+            ((delAt_ancKept _ _).noLinkAbove hl) (toOption_eq_some h)
+        · cases h
   · exact mknod_plain_lstat fs fs' ns k rdev hroot hlen hl (toOption_eq_some h)
 
 /-! ## The first operation of a walk entry -/
@@ -453,7 +455,7 @@ theorem execOps_ok_iff (c : Cfg) : ∀ (ops : List Op) (fs : Fs),
     | some fs' => simp [ih fs']
 
 theorem execOps_ok_no_fail (c : Cfg) : ∀ (ops : List Op) (fs : Fs),
-    (execOps fs c ops).exit = .ok → ∀ op ∈ ops, ∃ fs1 fs2, execOp fs1 c op = some fs2 := by
+    (execOps fs c ops).exit = .ok → ∀ op ∈ ops, op ≠ .fail := by
   intro ops
   induction ops with
   | nil => intro fs _ op hop; cases hop
@@ -465,7 +467,7 @@ theorem execOps_ok_no_fail (c : Cfg) : ∀ (ops : List Op) (fs : Fs),
     | some fs' =>
       simp only [he] at h
       cases hop with
-      | head => exact ⟨fs, fs', he⟩
+      | head => intro hf; subst hf; simp [execOp] at he
       | tail _ hm => exact ih fs' h op hm
 
 end Xcp
